@@ -79,6 +79,7 @@ pub struct CheckContext {
 
 impl CheckContext {
     pub fn relevance(&self, failure: &Failure) -> Relevance {
+        if failure.property == "INCONCLUSIVE" { return Relevance::Inconclusive; }
         if failure.property == "STALL" {
             return if self.stall_is_violation { Relevance::Violation } else { Relevance::Inconclusive };
         }
@@ -141,6 +142,22 @@ pub fn run_campaign<C>(
     run_case: Arc<dyn Fn(&C) -> CaseResult + Send + Sync>,
 ) -> (CampaignReport, Option<(C, Failure)>)
 where C: Clone + Debug + Serialize + Send + Sync + 'static {
+    run_campaign_with(context, name, engine, rule, cases, strategy, run_case, true, context.workers)
+}
+
+#[allow(clippy::too_many_arguments)]
+pub fn run_campaign_with<C>(
+    context: &CheckContext,
+    name: &str,
+    engine: &str,
+    rule: &str,
+    cases: u64,
+    strategy: Arc<dyn Fn() -> BoxedStrategy<C> + Send + Sync>,
+    run_case: Arc<dyn Fn(&C) -> CaseResult + Send + Sync>,
+    shrink: bool,
+    workers: usize,
+) -> (CampaignReport, Option<(C, Failure)>)
+where C: Clone + Debug + Serialize + Send + Sync + 'static {
     let started = Instant::now();
     let shared = Arc::new(Shared {
         stop: AtomicBool::new(false),
@@ -153,7 +170,7 @@ where C: Clone + Debug + Serialize + Send + Sync + 'static {
         known_hit: Mutex::new(BTreeMap::new()),
         samples: Mutex::new(Vec::new()),
     });
-    let workers = context.workers.max(1).min(cases.max(1) as usize);
+    let workers = workers.max(1).min(cases.max(1) as usize);
     let per_worker = (cases + workers as u64 - 1) / workers as u64;
     let found: Arc<Mutex<Vec<(usize, C, Failure)>>> = Arc::new(Mutex::new(Vec::new()));
     let name_hash = fnv1a(name.as_bytes());
@@ -201,6 +218,13 @@ where C: Clone + Debug + Serialize + Send + Sync + 'static {
                     }
                     if let Some(failure) = &outcome.failure {
                         match context.relevance(failure) {
+                            Relevance::Violation if failure.property == "STALL" || !shrink => {
+                                // a blocked case cannot be re-run cheaply (its threads are leaked) and timing-dependent
+                                // concurrent failures are reported with the history that failed: no shrinking
+                                shared.stop.store(true, Ordering::Release);
+                                found.lock().unwrap().push((worker, case.clone(), failure.clone()));
+                                return Ok(());
+                            }
                             Relevance::Violation => {
                                 failing.set(true);
                                 *failing_tag.borrow_mut() = failure.tag.clone();
